@@ -242,24 +242,41 @@ pub fn build(tc: &Toolchain, dir: &Path, files: &[(String, Vec<u8>)]) -> Result<
     // compiled separately to attribute the failure to the generated source or to the user side
     let mut args: Vec<&str> = CLANG_FLAGS.to_vec();
     args.extend(["-isystem", inc, "-I", ".", c.as_str(), "verif_export_stubs.c"]);
-    let out = run(&tc.clang, &args, Some(dir), 120_000);
+    let out = run(&tc.clang, &args, Some(dir), 300_000);
     let bindings_o = format!("{}.o", c.trim_end_matches(".c"));
     if !out.ok {
+        if out.timed_out {
+            return Err(Fail { stage: "machinery", msg: "clang timed out twice".into() });
+        }
         let mut args: Vec<&str> = CLANG_FLAGS.to_vec();
         args.extend(["-isystem", inc, "-I", ".", c.as_str(), "-o", bindings_o.as_str()]);
-        let out1 = run(&tc.clang, &args, Some(dir), 120_000);
+        let out1 = run(&tc.clang, &args, Some(dir), 300_000);
+        if out1.timed_out || out1.code.is_none() {
+            return Err(Fail { stage: "machinery", msg: format!("clang timed out or was killed: {}", trim_msg(&out1.text)) });
+        }
         if !out1.ok {
             return Err(Fail { stage: "clang", msg: trim_msg(&out1.text) });
         }
         // the user-side translation unit only includes the header and defines what it declares
-        return Err(Fail { stage: "clang-user", msg: trim_msg(&out.text) });
+        let mut args: Vec<&str> = CLANG_FLAGS.to_vec();
+        args.extend(["-isystem", inc, "-I", ".", "verif_export_stubs.c", "-o", "verif_export_stubs.o"]);
+        let out2 = run(&tc.clang, &args, Some(dir), 300_000);
+        if out2.ok || out2.timed_out || out2.code.is_none() {
+            // both translation units compile on their own: the combined run failed for a reason
+            // that is not in the sources (killed, out of memory ...)
+            return Err(Fail { stage: "machinery", msg: format!("combined clang run failed ({:?}) but both translation units compile separately: {}", out.code, trim_msg(&out.text)) });
+        }
+        return Err(Fail { stage: "clang-user", msg: trim_msg(&out2.text) });
     }
     let libc = tc.libc_o.to_str().unwrap();
     let t_clang = t0.elapsed().as_secs_f64();
     let t1 = std::time::Instant::now();
     let mut args: Vec<&str> = LD_FLAGS.to_vec();
     args.extend([bindings_o.as_str(), "verif_export_stubs.o", o.as_str(), libc, "-o", "core.wasm"]);
-    let out = run(&tc.wasm_ld, &args, Some(dir), 120_000);
+    let out = run(&tc.wasm_ld, &args, Some(dir), 300_000);
+    if out.timed_out || out.code.is_none() {
+        return Err(Fail { stage: "machinery", msg: format!("wasm-ld timed out or was killed: {}", trim_msg(&out.text)) });
+    }
     if !out.ok {
         return Err(Fail { stage: "link", msg: trim_msg(&out.text) });
     }
